@@ -1,5 +1,6 @@
 (* C15 — non-finite scores never crash a search nor become the reported best.  Statements only. *)
-Require Import Base StopRun Converter ConverterFacts CoreOpt Tracker Algos Driver DriverFacts StopFacts CoreFacts AlgoFacts AlgoLift C03_proofs C05_proofs.
+Require Import Base PyPrims StopRun Converter ConverterFacts CoreOpt Tracker Algos Driver DriverFacts StopFacts CoreFacts AlgoFacts AlgoLift C03_proofs C05_proofs.
+Require Import TrackerGen TrackerTie SourceTracker.
 
 (* driver, for every optimizer and every objective (so every pattern of NaN / +inf / -inf scores):
    best_score is never NaN, no row is strictly better, best_value is None only if every row is NaN *)
@@ -24,6 +25,19 @@ Print Assumptions C15_nan_never_adopted.
 Theorem C15_hc_evaluate_total : forall n k s, 1 <= n -> exists k', hc_evaluate n k s = Ok k'.
 Proof. exact hc_evaluate_total. Qed.
 Print Assumptions C15_hc_evaluate_total.
+
+(* ---- for the definitions GENERATED from /repo's source on this run (generated/TrackerGen.v) ---- *)
+(* whatever scores (NaN, +inf, -inf, finite) are fed to the translated evaluate_init / HillClimbingOptimizer.evaluate /
+   Spiral.evaluate / BaseOptimizer.evaluate, in any order and number, none of them raises (n_neighbours >= 1) ... *)
+Theorem C15_source_tracker_never_raises : forall n ops, 1 <= n -> exists g, srun (g_init n) ops = Ok g.
+Proof. exact source_tracker_never_raises. Qed.
+Print Assumptions C15_source_tracker_never_raises.
+(* ... and positions_valid / scores_valid stay aligned and hold finite scores only *)
+Theorem C15_source_valid_lists_finite : forall n ops g, 0 <= n -> srun (g_init n) ops = Ok g ->
+  grounded (abs g) (map sop_pair ops) /\
+  length (f_positions_valid g) = length (f_scores_valid g) /\ Forall (fun s => is_finite s = true) (f_scores_valid g).
+Proof. exact source_tracker_grounded. Qed.
+Print Assumptions C15_source_valid_lists_finite.
 
 (* and the positions proposed afterwards are still legal: the step contract is score independent *)
 Theorem C15_family_keeps_proposing_legal_points : forall c, dims_ok (a_sp c) ->
